@@ -234,13 +234,22 @@ deriving Repr
 
 def LScript.empty : LScript := ⟨[], [], []⟩
 
+/-- a point at which the caller of `PullModel` cancels its context (observed through the progress callback) -/
+inductive CancelPoint
+  | atStart               -- at "pulling manifest": before the first request
+  | verifying (k : Nat)   -- at the k-th "verifying sha256 digest": after the k-th fresh layer was renamed into
+                          -- place and before it is verified (repaired variant)
+  | writing               -- at "writing manifest"
+deriving DecidableEq, Repr
+
 structure Scripts where
   manifest : List (Reply MBody)
   token : List Bool
   layers : List (Digest × LScript)
+  cancel : Option CancelPoint
 deriving Repr
 
-def Scripts.honest : Scripts := ⟨[], [], []⟩
+def Scripts.honest : Scripts := ⟨[], [], [], none⟩
 
 def lookupS (d : Digest) : List (Digest × LScript) → LScript
   | [] => LScript.empty
@@ -401,7 +410,13 @@ def chunkStep (content : Bytes) (r : ChunkReply) (s : PSt) : StepRes × PSt :=
     let data := body.take want
     let file' := writeAt s.file start data
     let wrote' := s.wrote || !data.isEmpty
-    if data.length = want then
+    if e = .cancel ∧ body.length ≤ want then
+      -- the caller goes away when the last scripted byte was served (even if that completes the part; a body
+      -- longer than what is still wanted is never read to its end):
+      -- Wait returns ctx.Err(), release() cancels the download, the read (or the watchdog) ends with
+      -- context.Canceled, which keeps the progress made so far; nothing is renamed
+      (.canceled, ⟨file', { s.p with done := s.p.done + data.length }, wrote'⟩)
+    else if data.length = want then
       (.done, ⟨file', { s.p with done := s.p.done + want }, wrote'⟩)
     else
       match e with
@@ -411,10 +426,7 @@ def chunkStep (content : Bytes) (r : ChunkReply) (s : PSt) : StepRes × PSt :=
       | .stall =>
         if wrote' then (.stalled, ⟨file', { s.p with done := s.p.done + data.length }, false⟩)
         else (.failed, ⟨file', s.p, wrote'⟩)             -- undetectable stall: the peer gives up
-      | .cancel =>
-        -- Wait returns ctx.Err(), release() cancels the download: the read ends with context.Canceled,
-        -- which keeps the progress made so far
-        (.canceled, ⟨file', { s.p with done := s.p.done + data.length }, wrote'⟩)
+      | .cancel => (.canceled, ⟨file', { s.p with done := s.p.done + data.length }, wrote'⟩)
 
 def honestReply : ChunkReply := .body .honest none .eof
 
@@ -615,6 +627,14 @@ structure DlState where
   net : Net
   skip : List (Digest × Bool)
   renamed : List Digest       -- digests renamed into place by this attempt (in order)
+  canceled : Bool             -- the caller's context is done
+
+/-- what a cancelled caller leaves of a missing layer: without records `Prepare`'s HEAD fails and nothing
+    changes; with records the download is started (`-partial` created / truncated to the plan's total) and
+    released at once -/
+def canceledLayer (pa : Partial) : Partial :=
+  if pa.parts.isEmpty then pa
+  else ⟨some (resize (pa.data.getD []) ((globParts pa.parts).map (·.2.size)).sum), pa.parts⟩
 
 /-- the download loop of `PullModel` (with the inline verification of the repaired variant) -/
 def dlLoop (cfg : Cfg) (hash : Bytes → Digest) (reg : Registry) (sc : Scripts) :
@@ -628,6 +648,9 @@ def dlLoop (cfg : Cfg) (hash : Bytes → Digest) (reg : Registry) (sc : Scripts)
       match s.st.blobs d with
       | some _ => dlLoop cfg hash reg sc ls { s with skip := markSkip cfg d true s.skip }
       | none =>
+        if s.canceled then
+          (.err .canceled, { s with st := { s.st with partials := upd s.st.partials d (canceledLayer (s.st.partials d)) } })
+        else
         match downloadLayer cfg reg d (lookupS d sc.layers) (s.st.partials d) s.net with
         | (.ok c, pa, net') =>
           if cfg.verifyEarly && hash c != d then
@@ -636,7 +659,8 @@ def dlLoop (cfg : Cfg) (hash : Bytes → Digest) (reg : Registry) (sc : Scripts)
           else
             dlLoop cfg hash reg sc ls
               { st := { s.st with blobs := upd s.st.blobs d (some c), partials := upd s.st.partials d pa }
-                net := net', skip := markSkip cfg d false s.skip, renamed := s.renamed ++ [d] }
+                net := net', skip := markSkip cfg d false s.skip, renamed := s.renamed ++ [d]
+                canceled := s.canceled || (cfg.verifyEarly && sc.cancel == some (.verifying s.renamed.length)) }
         | (.err e, pa, net') =>
           (.err e, { s with st := { s.st with partials := upd s.st.partials d pa }, net := net' })
         | (.panic p, pa, net') =>
@@ -683,6 +707,7 @@ def pull (cfg : Cfg) (hash : Bytes → Digest) (name : Name) (reg : Registry) (s
     | some (.readable m) => (m.all.map (·.digest))
     | _ => []
   let net0 : Net := { tok := sc.token }
+  if sc.cancel = some .atStart then (.err .manifest, st, ⟨net0, []⟩) else
   match mrr cfg reg.realm (.pass .served) Policy.dflt 2 sc.manifest net0 with
   | (.err _, _, net1, n) => (.err .manifest, st, ⟨{ net1 with nm := n }, []⟩)
   | (.panic p, _, net1, n) => (.panic p, st, ⟨{ net1 with nm := n }, []⟩)
@@ -690,7 +715,7 @@ def pull (cfg : Cfg) (hash : Bytes → Digest) (name : Name) (reg : Registry) (s
   | (.ok .served, _, net1, n) =>
     let m := reg.manifest
     let layers := m.all
-    match dlLoop cfg hash reg sc layers ⟨st, { net1 with nm := n }, [], []⟩ with
+    match dlLoop cfg hash reg sc layers ⟨st, { net1 with nm := n }, [], [], false⟩ with
     | (.err e, s) => (.err e, s.st, ⟨s.net, s.renamed⟩)
     | (.panic p, s) => (.panic p, s.st, ⟨s.net, s.renamed⟩)
     | (.ok (), s) =>
